@@ -183,7 +183,57 @@ def run_stream(spec, prop, schema):
             cfgs = [(c, variants[(k + j) % 3]) for j, c in enumerate(covering_configs(r, spec["cfgs"]))]
         for cfg, variant in cfgs:
             merge_case(col, paths, cls, b, l, rm, info, cfg, variant, schema, prop)
+        if schema and k % 8 == 0:
+            file_case(col, cls, b, l, rm, info, next((c for c, v in cfgs if c["merge"] != "mergetool"), None), r)
     return col.result()
+
+
+def file_case(col, cls, b, l, rm, info, cfg, r):
+    """the file written by the real `nbmerge --out` must validate as read from disk (C04)"""
+    import json
+    from .. import nbd
+    from ..gen_nb import disk_form, validate_nb, error_key
+    from ..workloads import config_flags
+    import nbdime.nbmergeapp as app
+    if cfg is None:
+        return
+    tmp = os.path.join(os.environ.get("VMON_SCRATCH", "/tmp"), "c04-files-%d" % os.getpid())
+    os.makedirs(tmp, exist_ok=True)
+    fns = []
+    for name, nb in (("b", b), ("l", l), ("r", rm)):
+        fn = os.path.join(tmp, name + ".ipynb")
+        with open(fn, "w", encoding="utf8") as f:
+            json.dump(disk_form(nb, r), f)
+        fns.append(fn)
+    out = os.path.join(tmp, "merged.ipynb")
+    if os.path.exists(out):
+        os.remove(out)
+    nbd.hygiene()
+    try:
+        app.main(config_flags(cfg) + fns + ["--out", out])
+    except Exception:
+        col.count("nbmerge_raised(C03's business)")
+        return
+    finally:
+        nbd.quiet_logging()
+        nbd.dn.reset_notebook_differ()
+    try:
+        with open(out, encoding="utf8") as f:
+            merged = json.load(f)
+    except Exception as e:
+        col.violation("merged-file-not-json", repr(e)[:150], {"base": b, "local": l, "remote": rm, "config": cfg}, "file")
+        return
+    col.mon("schema_oracle_file")
+    minors = (b["nbformat_minor"], l["nbformat_minor"], rm["nbformat_minor"])
+    seen = set()
+    for e in validate_nb(merged, check_ids=False):
+        k_ = error_key(e)
+        if k_ in seen:
+            continue
+        seen.add(k_)
+        col.violation(classify_schema(k_, len(set(minors)) > 1, cls, {"_retyped": retyped_by_id(b, l, rm)}),
+                      "file written by nbmerge --out (declares 4.%s) invalid: %s [class=%s cfg=%s]" % (merged.get("nbformat_minor"), k_, cls, cfg),
+                      {"base": b, "local": l, "remote": rm, "class": cls, "info": info, "config": cfg, "path_variant": "full", "file": True}, "schema-file")
 
 
 def run_shard(spec):
